@@ -208,6 +208,42 @@ def eval_same_key(args):
     return None
 
 
+UNDECL_DOCS = ['<node xmlns="urn:a"><leaf xmlns="">w</leaf><leaf>z</leaf></node>',
+               '<p:node xmlns:p="urn:a" xmlns:q="urn:b"><node xmlns="urn:b" id="1"><node xmlns="" id="2" q:attr="k"><leaf>m</leaf><q:leaf>n</q:leaf></node><leaf>o</leaf></node></p:node>',
+               '<node xmlns="urn:a" id="1"><node xmlns="" id="2"><leaf>m</leaf></node></node>', '<node xmlns="urn:a"><node xmlns=""><node xmlns="urn:b"><leaf xmlns="">x</leaf><leaf>y</leaf></node></node><leaf>z</leaf></node>',
+               '<p:node xmlns:p="urn:a" xmlns:q="urn:b" q:attr="1"><p:node xmlns:p="urn:b" id="x"><q:leaf xmlns:q="urn:a" p:attr="2">t</q:leaf><p:leaf>u</p:leaf></p:node><node xmlns="urn:a" id="y"><leaf>z</leaf></node><q:leaf>v</q:leaf></p:node>']
+
+
+def eval_undeclared(ver):
+    """global elements node / leaf in urn:a, urn:b and in NO namespace (three schema documents importing each other): documents that set a default namespace and unset it again
+    (xmlns="") on an inner element decode and encode back to the same expanded element and attribute names - default and unordered conventions"""
+    import os, shutil, tempfile, xmlschema
+    from xml.etree import ElementTree as ET
+    XS_ = 'xmlns:xs="http://www.w3.org/2001/XMLSchema"'
+    body = '<xs:element name="node" type="a:NodeType"/><xs:element name="leaf" type="a:LeafType"/>'
+    types = ('<xs:complexType name="NodeType"><xs:choice minOccurs="0" maxOccurs="unbounded"><xs:element ref="a:node"/><xs:element ref="b:node"/><xs:element ref="node"/><xs:element ref="a:leaf"/><xs:element ref="b:leaf"/><xs:element ref="leaf"/></xs:choice>'
+             '<xs:attribute ref="a:attr"/><xs:attribute ref="b:attr"/><xs:attribute name="id" type="xs:string"/></xs:complexType>'
+             '<xs:complexType name="LeafType"><xs:simpleContent><xs:extension base="xs:string"><xs:attribute ref="a:attr"/><xs:attribute ref="b:attr"/><xs:attribute name="id" type="xs:string"/></xs:extension></xs:simpleContent></xs:complexType>')
+    d = tempfile.mkdtemp(prefix='verif_c17_'); bad = []; n = 0
+    try:
+        open(os.path.join(d, 'a.xsd'), 'w').write(f'<xs:schema {XS_} xmlns:a="urn:a" xmlns:b="urn:b" targetNamespace="urn:a" elementFormDefault="qualified"><xs:import namespace="urn:b" schemaLocation="b.xsd"/><xs:import schemaLocation="n.xsd"/>{types}{body}<xs:attribute name="attr" type="xs:string"/></xs:schema>')
+        open(os.path.join(d, 'b.xsd'), 'w').write(f'<xs:schema {XS_} xmlns:a="urn:a" targetNamespace="urn:b" elementFormDefault="qualified"><xs:import namespace="urn:a" schemaLocation="a.xsd"/>{body}<xs:attribute name="attr" type="xs:string"/></xs:schema>')
+        open(os.path.join(d, 'n.xsd'), 'w').write(f'<xs:schema {XS_} xmlns:a="urn:a"><xs:import namespace="urn:a" schemaLocation="a.xsd"/>{body}</xs:schema>')
+        s = _cls(ver)(os.path.join(d, 'a.xsd'))
+        sig = lambda r: [(e.tag, sorted(e.attrib), (e.text or '').strip()) for e in r.iter()]
+        for doc in UNDECL_DOCS:
+            for cname in ('default', 'unordered'):
+                n += 1; kw = dict(converter=xmlschema.UnorderedConverter) if cname == 'unordered' else {}
+                if not s.is_valid(doc): bad.append(dict(ver=ver, doc=doc, converter=cname, problem='the document is invalid: ' + str([e.reason[:60] for e in s.iter_errors(doc)][:1]))); continue
+                try:
+                    data = s.decode(doc, **kw); e = s.encode(data, path=ET.fromstring(doc).tag, **kw)
+                except xmlschema.XMLSchemaException as x: bad.append(dict(ver=ver, doc=doc, converter=cname, problem=f'decode / encode raised {type(x).__name__}: {str(x).strip().splitlines()[0][:100] if str(x).strip() else ""}')); continue
+                a, b = sig(ET.fromstring(doc)), sig(e)
+                if (sorted(a) if cname == 'unordered' else a) != (sorted(b) if cname == 'unordered' else b): bad.append(dict(ver=ver, doc=doc, converter=cname, problem=f'encoding the decoded data does not restore the expanded names: {[t for t, _, _ in a]} became {[t for t, _, _ in b]}'))
+    finally: shutil.rmtree(d, ignore_errors=True)
+    return n, bad
+
+
 def run(tier, seed, open_findings):
     rng = random.Random(seed); n = 15000 if tier == 'thorough' else 400
     docs = []
@@ -229,12 +265,17 @@ def run(tier, seed, open_findings):
             else: fails.append(dict(case=dict(doc=r['doc'], ver=r['ver']), observed=r['known'], required='encode restores the names'))
     sk = [eval_same_key((ver, d, c)) for ver in ('1.0', '1.1') for d in SAME_KEY_DOCS for c in ('default', 'BadgerFish', 'GData', 'JsonML')]
     skf = [dict(case=dict(same_key=True, ver=r['ver'], doc=r['doc'], converter=r['converter']), observed=r['problem'], required='encode restores the expanded name of every child') for r in sk if r]
-    return [result('C17.same_key_children_own_declarations', f'{len(SAME_KEY_DOCS)} documents whose same-key children bind the prefix differently x 4 conventions x 2 classes', len(sk), skf, exhaustive=True, samples=[dict(doc=SAME_KEY_DOCS[0])]),
+    ud = [eval_undeclared(ver) for ver in ('1.0', '1.1')]
+    return [result('C17.default_namespace_undeclared_for_no_namespace_globals', f'{len(UNDECL_DOCS)} documents that unset the default namespace (xmlns="") on inner elements declared globally in no namespace x 2 conventions x 2 classes', sum(n_ for n_, _ in ud),
+                   [dict(case=dict(undeclared=True, ver=b['ver'], doc=b['doc'], converter=b['converter']), observed=b['problem'], required='encode restores the expanded names') for _, bs in ud for b in bs], exhaustive=True),
+            result('C17.same_key_children_own_declarations', f'{len(SAME_KEY_DOCS)} documents whose same-key children bind the prefix differently x 4 conventions x 2 classes', len(sk), skf, exhaustive=True, samples=[dict(doc=SAME_KEY_DOCS[0])]),
             result('C17.decoded_keys_resolve', f'{len(used)} generated documents (root in urn:u) with prefixes p/q/default redeclared over 3 URIs, depth <= 4, default converter, both classes',
                    len(used), fails, known=known, samples=[dict(doc=docs[0][:200])], reported={'encode names differ below the third level (reported only)': rep}, distinct=len({d for _, d in jobs}))]
 
 
 def replay(check_name, case):
+    if case.get('undeclared'):
+        mine = [b for b in eval_undeclared(case['ver'])[1] if b['doc'] == case['doc'] and b['converter'] == case['converter']]; return dict(ok=not mine, observed=mine[:1], required='encode restores the expanded names')
     if case.get('same_key'):
         r = eval_same_key((case['ver'], case['doc'], case['converter'])); return dict(ok=r is None, observed=r, required='encode restores the expanded names')
     r = eval_doc((case['ver'], case['doc']))
